@@ -54,6 +54,7 @@ props! {
     "C26" => c26,
     "C28" => c28,
     "C29" => c29,
+    "C33" => c33,
     "C34" => c34,
     "C35" => c35,
     "C36" => c36,
